@@ -50,6 +50,15 @@ SegDone == /\ ~done
 
 Report == IF "VERIF_VERBOSE" \in DOMAIN IOEnv THEN PrintT(<<"AT", seg, l>>) ELSE TRUE
 
+\* Explain mode (VERIF_EXPLAIN set; used by bin/check on a rejected segment only): instead of
+\* comparing, print what the specification expects for the event being consumed and accept.
+Explaining == "VERIF_EXPLAIN" \in DOMAIN IOEnv
+Expect(cond, expected) == IF Explaining THEN PrintT(<<"EXPECT", l, ToJson(expected)>>) ELSE cond
+
+\* equality of two maps one of which may be EMPTY: TLC refuses to compare the empty record read
+\* from JSON ("{}") with an empty function built by a function constructor
+FEq(a, b) == DOMAIN a = DOMAIN b /\ \A k \in DOMAIN a : a[k] = b[k]
+
 Has(e, k) == k \in DOMAIN e
 Get(e, k, dflt) == IF k \in DOMAIN e THEN e[k] ELSE dflt
 =============================================================================
